@@ -123,7 +123,7 @@ def search(ctx: Ctx) -> Result:
 
 
 SPEC = PropSpec(
-    prop='C14', translators=['runwalk', 'deciderfrag'], run=run, search=search,
+    prop='C14', extra_props=['C14Total'], translators=['runwalk', 'deciderfrag'], run=run, search=search,
     rule='C01 pattern families (all legal flag vectors up to 3 blocks) with a raising wrapper at sampled predicate sites '
          '(precondition, haltcondition, every predicate position of every block incl. the first) x sampled streams of length 4 '
          'over {0,1,2}, a non-raising bystander pattern alongside; plus seeded random multi-pattern configurations with raising '
